@@ -621,6 +621,33 @@ package tsm1
 //@   loop 1 invariant none_tombstoned_so_far: 1 <= i && (!dedup ==> all(j, 0, i, j < len(k.blocks) ==> len(k.blocks[j].tombstones) == 0))
 //@   call tsmKeyIterator.combineBoolean#1 requires tombstoned_blocks_take_the_decode_path: dedup || all(j, 0, len(k.blocks), len(k.blocks[j].tombstones) == 0)
 
+// ---- C18: a restore / import succeeds only if the whole archive arrived ----
+// overlay's copy loop may stop successfully at one condition only: the tar reader reported a clean end of archive
+// (io.EOF). Every other error - a stream cut inside a member or a header (io.ErrUnexpectedEOF), a file error -
+// makes the restore fail, so a half-copied shard is never installed and never advertised as a replica.
+//@ func (*Engine).readFileFromBackup
+//@   props C18
+//@   nosafety
+//@   modifies *
+//@   ghost copied bool = false
+//@   ghost synced bool = false
+//@   ghost header_err bool = false
+//@   at after Reader.Next#1: ghost header_err = callresult1 != nil
+//@   at after io.CopyN#1: ghost copied = callresult1 == nil
+//@   at after File.Sync#1: ghost synced = callresult0 == nil
+//@   ensures a_file_is_reported_only_when_all_its_bytes_arrived_and_were_synced: result1 == nil && result0 != "" ==> copied && synced
+//@   ensures a_header_error_is_returned: header_err ==> result1 != nil
+
+//@ func (*Engine).overlay$1
+//@   props C18
+//@   nosafety
+//@   ghost ended_cleanly bool = false
+//@   ghost installed bool = false
+//@   at after Engine.readFileFromBackup#1: ghost ended_cleanly = callresult1 == io.EOF
+//@   at after FileStore.Replace#1: ghost installed = callresult0 == nil
+//@   call FileStore.Replace#1 requires install_only_a_complete_archive: ended_cleanly
+//@   ensures success_needs_the_whole_archive: result1 == nil ==> ended_cleanly && installed
+
 // ---- GENERATED-CURSORS BEGIN (gen/gen_cursor_contracts.py) ----
 // ---- C02: the array cursors overlay cache on TSM values: one point per timestamp, cache wins a tie ----
 // Both inputs are strictly increasing in time (the cache values were deduplicated, a TSM block is sorted and the
